@@ -5,6 +5,7 @@ import (
 	"go/token"
 	"go/types"
 	"math"
+	"strings"
 	"unicode/utf8"
 
 	"golang.org/x/tools/go/ssa"
@@ -546,7 +547,30 @@ func (in *Interp) rangeIter(x value) iter {
 	case *Map:
 		it := &mapIter{m: x}
 		if x != nil {
-			it.entries = append(it.entries, x.entries...)
+			for _, e := range x.entries {
+				if !e.deleted {
+					it.entries = append(it.entries, e)
+				}
+			}
+			// Go's map iteration order is unspecified: for small maps every order is
+			// explored (a decision), larger maps are iterated in insertion order
+			if n := len(it.entries); in.cfg.MapOrderIn != "" && n >= 2 && n <= 3 && in.initDepth == 0 &&
+				in.curFrame() != nil && strings.Contains(in.curFrame().fn.String(), in.cfg.MapOrderIn) {
+				perms := [][]int{{0, 1}, {1, 0}}
+				if n == 3 {
+					perms = [][]int{{0, 1, 2}, {0, 2, 1}, {1, 0, 2}, {1, 2, 0}, {2, 0, 1}, {2, 1, 0}}
+				}
+				alts := make([]*Term, len(perms))
+				for i := range alts {
+					alts[i] = in.tc.True()
+				}
+				p := perms[in.decide(alts, "maporder", nil)]
+				es := make([]*mapEntry, n)
+				for i, k := range p {
+					es[i] = it.entries[k]
+				}
+				it.entries = es
+			}
 			if in.cfg.MapOrderReverse {
 				for i, j := 0, len(it.entries)-1; i < j; i, j = i+1, j-1 {
 					it.entries[i], it.entries[j] = it.entries[j], it.entries[i]
